@@ -152,6 +152,33 @@ pub fn run(ctx: &mut Ctx) {
             ctx.check(&case, "hmap-adjacent-collections-merge", &["HSH.map_hash.ensures.self-delimiting"], l != r, format!("({{{0}:1}}, {{}}) and ({{}}, {{{0}:1}}) feed the same stream", e), "different streams".into());
         }
     }
+    // distinct maps never merge: every map u8 -> u8 with at most two entries over keys and values {0,1,2}
+    // (swapped pairs {0:1} / {1:0}, diagonal entries {1:1} / {2:2}, key/value of one type) feeds its own stream
+    {
+        let mut maps: Vec<(String, HashableHashMap<u8, u8>)> = Vec::new();
+        let cells: Vec<(u8, u8)> = (0..3u8).flat_map(|k| (0..3u8).map(move |v| (k, v))).collect();
+        for (i, a) in cells.iter().enumerate() {
+            let mut m: HashableHashMap<u8, u8> = HashableHashMap::new();
+            m.insert(a.0, a.1);
+            maps.push((format!("{}.{}", a.0, a.1), m.clone()));
+            for b in &cells[i + 1..] {
+                if b.0 != a.0 {
+                    let mut m2 = m.clone();
+                    m2.insert(b.0, b.1);
+                    maps.push((format!("{}.{}-{}.{}", a.0, a.1, b.0, b.1), m2));
+                }
+            }
+        }
+        let streams: Vec<Vec<u8>> = maps.iter().map(|(_, m)| stream(m)).collect();
+        for i in 0..maps.len() {
+            for j in i + 1..maps.len() {
+                let case = format!("hmap.distinct:{}:{}", maps[i].0, maps[j].0);
+                if ctx.want(&case) {
+                    ctx.check(&case, "hmap-distinct-maps-merge", &["HSH.map_hash.ensures.self-delimiting", "HSH.map_hash.ensures.block"], streams[i] != streams[j], format!("maps {{{}}} and {{{}}} feed the same stream", maps[i].0, maps[j].0), "different maps feed different streams".into());
+                }
+            }
+        }
+    }
     // two timer sets of adjacent actors (the concrete shape of the previous case inside a state)
     {
         let case = "state.timer-owner".to_string();
